@@ -96,9 +96,269 @@ pub fn legal_sheet_name(s: &str) -> bool {
         && !s.ends_with('\'')
 }
 
+
+// ---- the canonical grammars of Umya/Model/CoordCanon.lean, evaluated on the harness side (the driver evaluates the Lean
+// predicates on the same text and both lead the reply with the result, so the two are compared on every request) ----
+fn strip_dollar(s: &[u8]) -> &[u8] {
+    if s.first() == Some(&b'$') {
+        &s[1..]
+    } else {
+        s
+    }
+}
+fn canon_letters(s: &[u8]) -> bool {
+    (1..=3).contains(&s.len()) && s.iter().all(|b| b.is_ascii_uppercase())
+}
+fn canon_digits(s: &[u8]) -> bool {
+    !s.is_empty()
+        && s.iter().all(|b| b.is_ascii_digit())
+        && (s == b"0" || s[0] != b'0')
+        && s.len() <= 10
+        && std::str::from_utf8(s).unwrap().parse::<u64>().unwrap() < (1u64 << 32)
+}
+fn canon_col(s: &[u8]) -> bool {
+    canon_letters(strip_dollar(s))
+}
+fn canon_row(s: &[u8]) -> bool {
+    canon_digits(strip_dollar(s))
+}
+fn canon_cell(s: &[u8]) -> bool {
+    let r = strip_dollar(s);
+    let k = r.iter().take_while(|b| b.is_ascii_uppercase()).count();
+    canon_letters(&r[..k]) && canon_row(&r[k..])
+}
+/// 0 = outside, 1 = cell, 2 = cell:cell, 3 = col:col, 4 = row:row
+fn canon_range_shape(t: &str) -> u8 {
+    let p: Vec<&[u8]> = t.split(':').map(|x| x.as_bytes()).collect();
+    match p.len() {
+        1 => canon_cell(p[0]) as u8,
+        2 => {
+            if canon_cell(p[0]) && canon_cell(p[1]) {
+                2
+            } else if canon_col(p[0]) && canon_col(p[1]) {
+                3
+            } else if canon_row(p[0]) && canon_row(p[1]) {
+                4
+            } else {
+                0
+            }
+        }
+        _ => 0,
+    }
+}
+fn forbidden(c: char) -> bool {
+    matches!(c, ':' | '\\' | '?' | '[' | ']' | '/' | '*')
+}
+fn legal_b(n: &str) -> bool {
+    !n.is_empty() && !n.starts_with('\'') && !n.chars().any(forbidden)
+}
+fn canon_qual(q: &str) -> bool {
+    if let Some(r) = q.strip_prefix('\'') {
+        match r.strip_suffix('\'') {
+            Some(inner) => {
+                let n = inner.replace("''", "'");
+                n.replace('\'', "''") == inner && legal_b(&n)
+            }
+            None => false,
+        }
+    } else {
+        legal_b(q) && !q.chars().any(|c| matches!(c, '\'' | '(' | ')' | '"' | ','))
+    }
+}
+fn canon_area(t: &str) -> bool {
+    match t.rsplit_once('!') {
+        Some((q, a)) => canon_qual(q) && matches!(canon_range_shape(a), 1 | 2),
+        None => false,
+    }
+}
+/// the model's `stripSheetQuote`
+fn strip_quote(q: &str) -> &str {
+    match q.strip_prefix('\'') {
+        Some(r) => match r.strip_suffix('\'') {
+            Some(m) => m,
+            None => q,
+        },
+        None => q,
+    }
+}
+fn addr_plain(t: &str) -> bool {
+    match t.rsplit_once('!') {
+        None => true,
+        Some((q, _)) => !q.is_empty() && strip_quote(q) == q,
+    }
+}
+fn bit(b: bool) -> &'static str {
+    if b {
+        "1"
+    } else {
+        "0"
+    }
+}
+fn canon_count(out: &mut Out, what: &str, ok: bool) {
+    out.count(&format!("pp.{}.canon.{}", what, if ok { "ok" } else { "outside" }));
+}
+
+/// parse-then-print requests: `print (parse t)` on the implementation, with the oracle of Umya/Thm/C17Parse.lean
+fn exec_pp(out: &mut Out, line: &str, a: &[&str]) -> (String, bool) {
+    let t = String::from_utf8(unhex(a[3])).unwrap();
+    match a[2] {
+        "coord" => {
+            let canon = canon_cell(t.as_bytes());
+            canon_count(out, "coord", canon);
+            let r = guard(|| match index_from_coordinate(&t) {
+                (Some(c), Some(r), Some(lc), Some(lr)) => Some(coordinate_from_index_with_lock(&c, &r, &lc, &lr)),
+                _ => None,
+            });
+            match r {
+                Ok(v) => {
+                    if canon {
+                        if v.as_deref() == Some(t.as_str()) {
+                            out.oracle_ok();
+                        } else {
+                            out.oracle_fail(Fail::new("coord-parse-print").with("text", &t).with("printed", v.clone().unwrap_or("none".into())).with("op", line));
+                        }
+                    }
+                    (format!("{} {}", bit(canon), v.as_deref().map(hex).unwrap_or("none".into())), v.is_some())
+                }
+                Err(_) => {
+                    if canon {
+                        out.oracle_fail(Fail::new("coord-parse-print").with("text", &t).with("printed", "panic").with("op", line));
+                    }
+                    (format!("{} panic", bit(canon)), false)
+                }
+            }
+        }
+        "range" => {
+            let shape = canon_range_shape(&t);
+            let canon = shape != 0;
+            canon_count(out, "range", canon);
+            out.count(&format!("pp.range.shape.{}", ["outside", "cell", "cell-cell", "col-col", "row-row"][shape as usize]));
+            let r = guard(|| {
+                let mut r = Range::default();
+                r.set_range(t.clone());
+                r.get_range()
+            });
+            match r {
+                Ok(v) => {
+                    if canon {
+                        if v == t {
+                            out.oracle_ok();
+                        } else {
+                            out.oracle_fail(Fail::new("range-parse-print").with("text", &t).with("printed", &v).with("op", line));
+                        }
+                    }
+                    (format!("{} {}", bit(canon), hex(&v)), !v.is_empty())
+                }
+                Err(_) => {
+                    if canon {
+                        out.oracle_fail(Fail::new("range-parse-print").with("text", &t).with("printed", "panic").with("op", line));
+                    }
+                    (format!("{} panic", bit(canon)), false)
+                }
+            }
+        }
+        "addr" => {
+            let canon = addr_plain(&t);
+            canon_count(out, "addr", canon);
+            match guard(|| {
+                let (x, y) = split_address(&t);
+                join_address(x, y)
+            }) {
+                Ok(v) => {
+                    // clause 3 of C17_address_parse_print: `'n'!a` comes back as `n!a`
+                    let expect = if canon {
+                        Some(t.clone())
+                    } else {
+                        t.rsplit_once('!').and_then(|(q, a)| {
+                            let n = strip_quote(q);
+                            if n != q && !n.is_empty() {
+                                Some(format!("{}!{}", n, a))
+                            } else {
+                                None
+                            }
+                        })
+                    };
+                    if let Some(e) = expect {
+                        if v == e {
+                            out.oracle_ok();
+                        } else {
+                            out.oracle_fail(Fail::new("address-parse-print").with("text", &t).with("printed", &v).with("op", line));
+                        }
+                    }
+                    (format!("{} {}", bit(canon), hex(&v)), t.contains('!'))
+                }
+                Err(_) => (format!("{} panic", bit(canon)), false),
+            }
+        }
+        "area" => {
+            let canon = canon_area(&t);
+            canon_count(out, "area", canon);
+            let pr = |s: &str| {
+                let s = s.to_string();
+                guard(move || {
+                    let mut ad = Address::default();
+                    ad.set_address(s.replace("''", "'"));
+                    (ad.verif_get_address_ptn2(), ad.get_sheet_name().to_string(), dump_range(ad.get_range()))
+                })
+            };
+            match pr(&t) {
+                Ok((v, sheet, corners)) => {
+                    if canon {
+                        // the re-quoted text means the same area and is a fixed point
+                        match pr(&v) {
+                            Ok((v2, sheet2, corners2)) if v2 == v && sheet2 == sheet && corners2 == corners && v.ends_with(t.rsplit_once('!').unwrap().1) => out.oracle_ok(),
+                            _ => out.oracle_fail(Fail::new("area-parse-print").with("text", &t).with("printed", &v).with("op", line)),
+                        }
+                        out.count(if v == t { "pp.area.same-spelling" } else { "pp.area.requoted" });
+                    }
+                    (format!("{} {}", bit(canon), hex(&v)), true)
+                }
+                Err(_) => {
+                    if canon {
+                        out.oracle_fail(Fail::new("area-parse-print").with("text", &t).with("printed", "panic").with("op", line));
+                    }
+                    (format!("{} panic", bit(canon)), false)
+                }
+            }
+        }
+        "name" => {
+            let g = a[4] == "1";
+            canon_count(out, "name", g);
+            let pr = |s: &str| {
+                let s = s.to_string();
+                guard(move || {
+                    let mut d = umya_spreadsheet::structs::DefinedName::default();
+                    d.set_address(s);
+                    d.get_address()
+                })
+            };
+            match pr(&t) {
+                Ok(v) => {
+                    if g {
+                        match pr(&v) {
+                            Ok(v2) if v2 == v => out.oracle_ok(),
+                            _ => out.oracle_fail(Fail::new("name-parse-print").with("text", &t).with("printed", &v).with("op", line)),
+                        }
+                        out.count(if v == t { "pp.name.same-spelling" } else { "pp.name.requoted" });
+                    }
+                    (format!("{} {}", if g { "1" } else { "?" }, hex(&v)), true)
+                }
+                Err(_) => {
+                    if g {
+                        out.oracle_fail(Fail::new("name-parse-print").with("text", &t).with("printed", "panic").with("op", line));
+                    }
+                    (format!("{} panic", if g { "1" } else { "?" }), false)
+                }
+            }
+        }
+        _ => ("bad-op".into(), false),
+    }
+}
+
 pub fn exec(out: &mut Out, line: &str) -> (String, bool) {
     let a: Vec<&str> = line.split(' ').collect();
     match a[1] {
+        "pp" => exec_pp(out, line, &a),
         "col2alpha" => {
             let n: u32 = a[2].parse().unwrap();
             let r = guard(|| string_from_column_index(&n));
@@ -425,6 +685,113 @@ pub fn gen(tier: Tier, seed: u64) -> Vec<String> {
         v.push(format!("c17 split {}", hex(s)));
     }
     v.push(format!("c17 join - {}", hex("A1")));
+
+    // ---- parse-then-print: canonical texts of every shape, near misses, arbitrary strings ----
+    let n_pp = if thorough { 100_000 } else { 12_000 };
+    let canon_col_txt = |rng: &mut Rng| {
+        let n = match rng.below(4) {
+            0 => *rng.pick(&[1u32, 26, 27, 702, 703, 16384, 16385, 18278]),
+            _ => rng.range(1, 16384) as u32,
+        };
+        format!("{}{}", if rng.chance(1, 2) { "$" } else { "" }, own_alpha(n))
+    };
+    let canon_row_txt = |rng: &mut Rng| {
+        let n = match rng.below(4) {
+            0 => *rng.pick(&[0u64, 1, 9, 10, 1048576, 1048577, 4294967295]),
+            _ => rng.range(1, 1048576),
+        };
+        format!("{}{}", if rng.chance(1, 2) { "$" } else { "" }, n)
+    };
+    let canon_cell_txt = |rng: &mut Rng| format!("{}{}", canon_col_txt(rng), canon_row_txt(rng));
+    let canon_range_txt = |rng: &mut Rng| match rng.below(4) {
+        0 => canon_cell_txt(rng),
+        1 => format!("{}:{}", canon_cell_txt(rng), canon_cell_txt(rng)),
+        2 => format!("{}:{}", canon_col_txt(rng), canon_col_txt(rng)),
+        _ => format!("{}:{}", canon_row_txt(rng), canon_row_txt(rng)),
+    };
+    // a near miss: one edit of a canonical text
+    let mutate = |rng: &mut Rng, t: &str| -> String {
+        let cs: Vec<char> = t.chars().collect();
+        let i = rng.below(cs.len() as u64 + 1) as usize;
+        let ins: char = *rng.pick(&['0', '$', 'A', 'a', ':', '1', ' ', '!', '\'', 'Z', '9']);
+        let mut v = cs.clone();
+        match rng.below(3) {
+            0 => v.insert(i, ins),
+            1 if i < v.len() => {
+                v.remove(i);
+            }
+            _ if i < v.len() => v[i] = ins,
+            _ => v.push(ins),
+        }
+        v.into_iter().collect()
+    };
+    for _ in 0..n_pp {
+        let t = canon_cell_txt(&mut rng);
+        let t = if rng.chance(1, 4) { mutate(&mut rng, &t) } else { t };
+        v.push(format!("c17 pp coord {}", hex(&t)));
+        let t = canon_range_txt(&mut rng);
+        let t = if rng.chance(1, 4) { mutate(&mut rng, &t) } else { t };
+        v.push(format!("c17 pp range {}", hex(&t)));
+    }
+    for _ in 0..n_pp / 2 {
+        let s = rand_string(&mut rng, &alpha, 9);
+        v.push(format!("c17 pp coord {}", hex(&s)));
+        let s = rand_string(&mut rng, &ralpha, 12);
+        v.push(format!("c17 pp range {}", hex(&s)));
+    }
+    for s in [
+        "A1", "A1B", "A01", "A0", "$A$1", "$XFD$1048576", "ZZZ4294967295", "ZZZ4294967296", "AAAA1", "a1", "A1 ", " A1", "A1:", "A$", "$1", "A", "1",
+        "", "A1:B2", "A:C", "1:5", "$A:$XFD", "$1:$1048576", "A1:B", "A:B2", "A1:5", "a1:b2", "A1:B2:C3", ":", "A01:B2", "0:0", "A1:A1",
+    ] {
+        v.push(format!("c17 pp coord {}", hex(s)));
+        v.push(format!("c17 pp range {}", hex(s)));
+    }
+    // qualified areas and name texts: qualifiers unquoted / quoted with doubling / badly quoted
+    let spell = |rng: &mut Rng, name: &str| -> String {
+        match rng.below(5) {
+            0 | 1 => name.to_string(),
+            2 | 3 => format!("'{}'", name.replace('\'', "''")),
+            _ => format!("'{}'", name),
+        }
+    };
+    let word_names = ["Sheet1", "sheet1", "Data", "data", "My_Sheet", "R1C1", "A1", "x1", "123", "99999999999", "T.1", "日本", "a", "Z", "It's", "a'b", "S 2", "a,b", "a(b)", "q\"r", "a!b", "'x", "x'"];
+    let cell_ranges = ["A1", "$A$1", "A1:B2", "$C$3:$XFD$1048576", "ZZ10", "$A1:B$2", "A01", "a1", "A:C", "1:5", "A1:B2:C3", ""];
+    for _ in 0..n_pp {
+        let len = rng.range(1, 6);
+        let name: String = if rng.chance(1, 2) { (*rng.pick(&word_names)).to_string() } else { (0..len).map(|_| *rng.pick(&nalpha)).collect() };
+        let rg = if rng.chance(3, 4) { (*rng.pick(&cell_ranges[..6])).to_string() } else { (*rng.pick(&cell_ranges)).to_string() };
+        let t = format!("{}!{}", spell(&mut rng, &name), rg);
+        v.push(format!("c17 pp addr {}", hex(&t)));
+        v.push(format!("c17 pp area {}", hex(&t)));
+        // a name text: 1-3 areas
+        let k = rng.range(1, 3);
+        let mut pieces = vec![t.clone()];
+        for _ in 1..k {
+            let nm = (*rng.pick(&word_names)).to_string();
+            pieces.push(format!("{}!{}", spell(&mut rng, &nm), *rng.pick(&cell_ranges[..6])));
+        }
+        let g = pieces.iter().all(|p| canon_area(p));
+        v.push(format!("c17 pp name {} {}", hex(&pieces.join(",")), if g { 1 } else { 0 }));
+    }
+    for _ in 0..n_pp / 4 {
+        let s = rand_string(&mut rng, &nalpha, 10);
+        v.push(format!("c17 pp addr {}", hex(&s)));
+        v.push(format!("c17 pp area {}", hex(&format!("{}!A1", s))));
+        v.push(format!("c17 pp name {} 0", hex(&s)));
+    }
+    for s in ["Sheet1!$A$1", "'Sheet1'!$A$1", "sheet1!$A$1", "'sheet1'!$A$1", "'It''s'!$A$1", "'It's'!$A$1", "99999999999!A1", "123!A1", "$A$1", "Sheet1!$A$01",
+        "Sheet1!$A:$B", "''!A1", "!A1", "'!A1", "'a'b'!A1", "a!b!A1", "'a!b'!A1"] {
+        v.push(format!("c17 pp addr {}", hex(s)));
+        v.push(format!("c17 pp area {}", hex(s)));
+        v.push(format!("c17 pp name {} {}", hex(s), if canon_area(s) { 1 } else { 0 }));
+    }
+    v.push(format!("c17 pp name {} 1", hex("Sheet1!$A$1:$B$2,'S 2'!C3,data!D4")));
+    v.push(format!("c17 pp name {} 0", hex("SUM(Sheet1!A1:A2)")));
+    v.push(format!("c17 pp name {} 0", hex("")));
+    // join_address never quotes and never strips
+    for (n, r) in [("'My Sheet'", "A1"), ("'a b'", "$A$1:$B$2"), ("My Sheet", "A1"), ("'x'", "A1")] {
+        v.push(format!("c17 join {} {}", hex(n), hex(r)));
+    }
     v
 }
 
